@@ -146,6 +146,20 @@ CHECKS["C14"] = dict(
          "finding: unsound acceptances of the (mainly XSD 1.1) group restriction checker, listed per input in known/C14.json.",
     ref="DESIGN.md 5/C14")
 
+CHECKS["C07"] = dict(
+    technique=TECH + " - schema.iter_errors() on instances using xsi:type / substitution members / xsi:nil / fixed / type alternatives, with "
+                     "block and abstract flags of the live components and the instance variants chosen by symbolic indices (finite choice), "
+                     "vs. the rules of Structures 3.3.4 evaluated on the template's declared derivation chains",
+    category="model_checking",
+    text="xsi:type: for every element block x declared-type block x 9 type names (derived by extension, restriction, two steps, mixed chain, "
+         "unrelated, missing, simple) x 4 contents (x abstract type choice) the verdict equals: type exists, derivation chain not blocked, not "
+         "abstract, content valid for the named type. Substitution: head block (incl. substitution) x type block x 5 members (one level, two "
+         "levels) x member abstract x contents. xsi:nil/fixed: 3 elements x 5 nil values x 5 contents, value-space comparison of fixed. XSD 1.1 "
+         "alternatives: first true test selects the type. Both schema classes; all paths confirmed.",
+    note="Finite-choice. Flags are overwritten on built components (P2) in the representation the parser produces; blockDefault/finalDefault "
+         "parsing and hierarchies deeper than two steps outside.",
+    ref="DESIGN.md 5/C07")
+
 NOT_APPLICABLE = {
     "C18": "quantifies over thread interleavings; no engine of this family here executes Python threads symbolically (CrossHair is "
            "single-threaded); see DESIGN.md section 6",
